@@ -334,6 +334,8 @@ pub fn parent(inp: &str, outp: &str) {
     let mut start = 0usize;
     let limit = std::time::Duration::from_secs(std::env::var("TOTAL_TIMEOUT").ok().and_then(|x| x.parse().ok()).unwrap_or(30));
     for _ in 0..26 {
+        // the watchdog is generous until the child has loaded its cases and reported its first case
+        let _ = std::fs::remove_file(format!("{}.progress", outp));
         let mut ch = std::process::Command::new(&exe).args(["total_child", inp, outp, &start.to_string()]).spawn().expect("spawn child");
         let mut last = (String::new(), std::time::Instant::now());
         let status = loop {
@@ -341,7 +343,7 @@ pub fn parent(inp: &str, outp: &str) {
             std::thread::sleep(std::time::Duration::from_millis(100));
             let prog = std::fs::read_to_string(format!("{}.progress", outp)).unwrap_or_default();
             if prog != last.0 { last = (prog, std::time::Instant::now()); }
-            if last.1.elapsed() > limit { let _ = ch.kill(); let _ = ch.wait(); break None; }
+            if last.1.elapsed() > (if last.0.is_empty() { limit * 10 } else { limit }) { let _ = ch.kill(); let _ = ch.wait(); break None; }
         };
         let prog = std::fs::read_to_string(format!("{}.progress", outp)).unwrap_or_default();
         if status.map(|s| s.success()).unwrap_or(false) && prog == "done" { break; }
